@@ -5,7 +5,7 @@ from ref import pools, schnorr, halfagg
 
 ID = "C17"
 LEVEL = "exploration"
-CONFIGS = {"quick": ["san", "mx_i64"], "thorough": ["san", "san_nv", "mx_i64"]}
+CONFIGS = {"quick": ["san", "san_nv", "mx_i64"], "thorough": ["san", "san_nv", "mx_i64"]}
 EXTRA_BUILDS = ["sg13", "sg199"]
 RULE = ("n = 0..64 honest BIP-340 signatures: one-shot aggregate compared byte for byte with the draft's formula and accepted by aggverify; every "
         "composition n = n1+...+nk of incremental aggregation for n <= 8 (sampled above) must give identical bytes; buffer lengths 0..32(n+2); "
